@@ -269,6 +269,25 @@ func namedType(prog *ssa.Program, pkg, name string) types.Type {
 	return p.Type(name).Type()
 }
 
+// Abstract wall-clock instants (time.Unix(0, n) with a symbolic n): {wallAbs, unix nanoseconds, nil}.
+// With the monotonic flag clear a real time.Time never has bit 62 of wall set, so the marker is
+// unambiguous. Only the operations below understand it.
+const wallAbs = uint64(1) << 62
+
+func wallTime(ns *Term) Value { return Struct{mkBV(64, wallAbs), ns, (*Value)(nil)} }
+
+func isWallTime(v Value) (*Term, bool) {
+	s, ok := v.(Struct)
+	if !ok || len(s) != 3 {
+		return nil, false
+	}
+	w, ok := s[0].(*Term)
+	if !ok || !w.Const || w.V != wallAbs {
+		return nil, false
+	}
+	return s[1].(*Term), true
+}
+
 func (r *Run) monoFallback(caller *frame, fn *ssa.Function, args []Value) Value {
 	return r.callSSA2(caller, token.NoPos, fn, args, nil)
 }
@@ -543,6 +562,11 @@ func init() {
 			return r.monoFallback(c, fn, a)
 		},
 		"(time.Time).Sub": func(r *Run, c *frame, fn *ssa.Function, a []Value) Value {
+			if x, ok := isWallTime(a[0]); ok {
+				if y, ok := isWallTime(a[1]); ok {
+					return tBVBin("bvsub", x, y)
+				}
+			}
 			x, ok1 := isMonoTime(a[0])
 			y, ok2 := isMonoTime(a[1])
 			if ok1 && ok2 {
@@ -551,6 +575,11 @@ func init() {
 			return r.monoFallback(c, fn, a)
 		},
 		"(time.Time).After": func(r *Run, c *frame, fn *ssa.Function, a []Value) Value {
+			if x, ok := isWallTime(a[0]); ok {
+				if y, ok := isWallTime(a[1]); ok {
+					return tBVCmp("bvsgt", x, y)
+				}
+			}
 			x, ok1 := isMonoTime(a[0])
 			y, ok2 := isMonoTime(a[1])
 			if ok1 && ok2 {
@@ -559,6 +588,11 @@ func init() {
 			return r.monoFallback(c, fn, a)
 		},
 		"(time.Time).Before": func(r *Run, c *frame, fn *ssa.Function, a []Value) Value {
+			if x, ok := isWallTime(a[0]); ok {
+				if y, ok := isWallTime(a[1]); ok {
+					return tBVCmp("bvslt", x, y)
+				}
+			}
 			x, ok1 := isMonoTime(a[0])
 			y, ok2 := isMonoTime(a[1])
 			if ok1 && ok2 {
@@ -567,6 +601,11 @@ func init() {
 			return r.monoFallback(c, fn, a)
 		},
 		"(time.Time).Equal": func(r *Run, c *frame, fn *ssa.Function, a []Value) Value {
+			if x, ok := isWallTime(a[0]); ok {
+				if y, ok := isWallTime(a[1]); ok {
+					return tEq(x, y)
+				}
+			}
 			x, ok1 := isMonoTime(a[0])
 			y, ok2 := isMonoTime(a[1])
 			if ok1 && ok2 {
@@ -575,8 +614,33 @@ func init() {
 			return r.monoFallback(c, fn, a)
 		},
 		"(time.Time).IsZero": func(r *Run, c *frame, fn *ssa.Function, a []Value) Value {
+			if _, ok := isWallTime(a[0]); ok {
+				return tFalse // year 1 is not representable in unix nanoseconds
+			}
 			if _, ok := isMonoTime(a[0]); ok {
 				return tFalse
+			}
+			return r.monoFallback(c, fn, a)
+		},
+		"time.Unix": func(r *Run, c *frame, fn *ssa.Function, a []Value) Value {
+			sec, nsec := a[0].(*Term), a[1].(*Term)
+			if sec.Const && nsec.Const {
+				return r.monoFallback(c, fn, a)
+			}
+			if sec.Const && sec.V == 0 {
+				return wallTime(nsec)
+			}
+			panic(unsupported("time.Unix with symbolic seconds"))
+		},
+		"(time.Time).UnixNano": func(r *Run, c *frame, fn *ssa.Function, a []Value) Value {
+			if ns, ok := isWallTime(a[0]); ok {
+				return ns
+			}
+			return r.monoFallback(c, fn, a)
+		},
+		"(time.Time).UTC": func(r *Run, c *frame, fn *ssa.Function, a []Value) Value {
+			if _, ok := isWallTime(a[0]); ok {
+				return a[0]
 			}
 			return r.monoFallback(c, fn, a)
 		},
@@ -852,6 +916,11 @@ func (r *Run) deepEqual(x, y Value, depth int) *Term {
 			// time.Time values (wall, ext, loc): compare as instants when both are virtual-clock times
 			if a, ok1 := isMonoTime(x); ok1 {
 				if b, ok2 := isMonoTime(ys); ok2 {
+					return tEq(a, b)
+				}
+			}
+			if a, ok1 := isWallTime(x); ok1 {
+				if b, ok2 := isWallTime(ys); ok2 {
 					return tEq(a, b)
 				}
 			}
